@@ -111,6 +111,11 @@ func c05Body(depth int) mc.Body {
 			}
 			m = append(m, c05Req{"tombstone on the root", "root-tombstone", true, root, "root", data.Points{tomb(1)}})
 			m = append(m, c05Req{"tombstone on the root inside a batch", "root-tombstone", true, root, "root", data.Points{{Type: "role", Value: 2, Time: tick()}, tomb(1)}})
+			// any non-zero tombstone value deletes the root for at least one of the store's own readers
+			// (reads: ==1, rebroadcast path: odd / fractional, login path: !=0)
+			for _, v := range []float64{3, 2, 0.5, -1, -2} {
+				m = append(m, c05Req{fmt.Sprintf("tombstone with value %v on the root", v), "root-tombstone", true, root, "root", data.Points{tomb(v)}})
+			}
 			for _, p := range universe {
 				for _, c := range universe {
 					if p == c {
@@ -330,7 +335,7 @@ func checkC05(r *mc.Report, thorough bool) {
 		depth = 4
 	}
 	r.Explore(mc.Config{Name: fmt.Sprintf("graph-states-d%d", depth), Prune: true, SplitDepth: 2, StopAfterViolations: 12,
-		Rule: fmt.Sprintf("explicit-state search over graph states reached by %d legal writes (create/delete/undelete any of the 9 edges among root,A,B,C in either direction, node points), states = (edge set with tombstones, nodes with points, remaining depth); in EVERY new state the whole menu of must-be-refused requests is executed: self edges, root tombstone (alone / in a batch), new edge without node type, every edge that would close a cycle through live or deleted edges (incl. through the root), NaN at each position of node-point and edge-point batches; after each: error reply, full snapshot unchanged, nothing on up.>, follow-up write+read answered", depth)},
+		Rule: fmt.Sprintf("explicit-state search over graph states reached by %d legal writes (create/delete/undelete any of the 9 edges among root,A,B,C in either direction, node points), states = (edge set with tombstones, nodes with points, remaining depth); in EVERY new state the whole menu of must-be-refused requests is executed: self edges, root tombstone (value 1 alone / in a batch; values 3, 2, 0.5, -1, -2), new edge without node type, every edge that would close a cycle through live or deleted edges (incl. through the root), NaN at each position of node-point and edge-point batches; after each: error reply, full snapshot unchanged, nothing on up.>, follow-up write+read answered", depth)},
 		c05Body(depth))
 	sh.CleanupTemplate()
 	r.Assume("reference graph: an edge parent>child is cyclic iff parent==child or child is an ancestor of parent through any (live or deleted) edges")
